@@ -247,6 +247,26 @@ def run(ctx):
             m.rel,
             cl.lineno,
         )
+    # ---- C09.7 no hold-and-wait ------------------------------------------------------------------
+    # Units are released in the done/reject handlers.  A synchronous task reaches them when its function returns (children run afterwards); an
+    # async task reaches them only after everything it awaited has finished.  The entry point through which a *running* job starts a child
+    # evaluation must therefore give the parent's units back first, or a child that needs the same resource waits for its own parent.
+    r7 = ctx.rule("C09.7", "a running job does not keep its resource units while the scheduler evaluates an expression it awaits", floor=1)
+    ea = m.funcs.get("Scheduler._evaluate_async_main_thread")
+    if ea is None:
+        raise AnalysisError("Scheduler._evaluate_async_main_thread not found", "Scheduler._evaluate_async_main_thread")
+    evals = [c for c in calls_in(ea) if call_name(c) == "self.evaluate"]
+    if not evals:
+        raise AnalysisError("_evaluate_async_main_thread no longer calls self.evaluate", "Scheduler._evaluate_async_main_thread")
+    releases = [c for c in calls_in(ea) if call_name(c) in ("self._release_resources",)]
+    r7.check(
+        bool(releases),
+        f"{m.rel}:Scheduler._evaluate_async_main_thread:hold-and-wait",
+        "an async task that awaits a child expression keeps the units it consumed (they are released only in _done_job_main_thread/_reject_job_main_thread, which an async task reaches after "
+        "everything it awaited has finished): with limits={'api': 1}, an async parent with limits=['api'] awaiting a child with limits=['api'] parks the child in _jobs_pending_limits for ever and run() never returns",
+        m.rel,
+        ea.lineno,
+    )
 
 
 def _compress(seq: str) -> str:
